@@ -4,7 +4,7 @@
     of single pending nodes into the relay's / receiver's channel ([EPump1/2 j]), and polls
     ([EPoll1/2 t] = recv(t)) in ANY interleaving - cuts fall between individual node creations. *)
 From Coq Require Import NArith List Bool.
-From ADF Require Import Spec.Spec Bdd.Store Bdd.WF Bdd.Node Bdd.Canon Bdd.Stream.
+From ADF Require Import Spec.Spec Gen.GenFlags Bdd.Store Bdd.WF Bdd.Node Bdd.Canon Bdd.Stream Bdd.Rebuild Bdd.Repair.
 Import ListNotations.
 Local Open Scope N_scope.
 
@@ -63,3 +63,14 @@ Theorem C19_producer_stream : forall c p st regs, run c (set_outq (init c) (Some
   table_of st = [node_bot; node_top] ++ sent st.
 Proof. exact producer_stream. Qed.
 Print Assumptions C19_producer_stream.
+
+(** the repair step fix_import is a public call like any other: applied to a store that is part of a stream (a producer in
+    the middle of its work, a relay, a mirror) it sends nothing, loses nothing that is queued and keeps the node table, so the
+    table of every store is still the terminals followed by what it has sent, whichever variant of the step the source has *)
+Theorem C19_repair_keeps_the_stream : forall b c st,
+  outq (fix_import_x b c st) = outq st /\ same_tab st (fix_import_x b c st) /\ table_of (fix_import_x b c st) = table_of st.
+Proof.
+  intros b c st. split; [exact (fix_import_x_outq b c st)|]. split; [exact (fix_import_x_same_tab b c st)|].
+  exact (same_tab_table st _ (fix_import_x_same_tab b c st)).
+Qed.
+Print Assumptions C19_repair_keeps_the_stream.
